@@ -28,6 +28,10 @@ def load_fragments():
             na[f[3:-5]] = j["reason"]
         elif f == "hooks.json":
             hooks = j["source_commits"]
+    # only checks I have integrated and seen pass on the unchanged tree are claimed
+    ready = set(open(os.path.join(d, "READY")).read().split()) if os.path.exists(os.path.join(d, "READY")) else set(checks)
+    checks = {k: v for k, v in checks.items() if k in ready}
+    engines = [e for e in engines if any(p in ready for p in e.get("serves_properties", []))]
     return checks, engines, na, hooks
 
 
